@@ -1269,6 +1269,18 @@ class unyt_array(np.ndarray):
         """
         return self.view(np.ndarray).argsort(axis, kind, order)
 
+    def squeeze(self, axis=None):
+        """
+        Remove axes of length one.
+
+        See the documentation of ndarray.squeeze for details. A
+        zero-dimensional result is returned as a unyt_quantity.
+        """
+        ret = super().squeeze(axis=axis)
+        if ret.shape == () and not isinstance(ret, unyt_quantity):
+            ret = ret.view(unyt_quantity)
+        return ret
+
     @classmethod
     def from_astropy(cls, arr, unit_registry=None):
         """
